@@ -3,6 +3,9 @@
 package c01
 
 import (
+	"fmt"
+	"strings"
+
 	"verifharness/envh"
 	"verifharness/fw"
 	"verifharness/rng"
@@ -57,7 +60,39 @@ func generate(tier string, r *rng.R) []fw.Case {
 	return cs
 }
 
+func genFsm(string) (string, error) {
+	rows, err := envh.TabulateFsm("/verif/.work/gen")
+	if err != nil {
+		return "", err
+	}
+	var b strings.Builder
+	b.WriteString("namespace Gen\n\n/-- (event, source, destination) index triples of every transition the environment fsm.FSM accepts,\n    obtained by firing each event in each state on a real Environment. Indices follow envStates/envEvents. -/\ndef envFsm : List (Nat × Nat × Nat) := [")
+	for i, r := range rows {
+		if i > 0 {
+			b.WriteString(", ")
+		}
+		fmt.Fprintf(&b, "(%d, %d, %d)", r[0], r[1], r[2])
+	}
+	b.WriteString("]\n\ndef envStates : List String := [")
+	for i, s := range envh.StateNames() {
+		if i > 0 {
+			b.WriteString(", ")
+		}
+		fmt.Fprintf(&b, "%q", s)
+	}
+	b.WriteString("]\n\ndef envEvents : List String := [")
+	for i, s := range envh.EventNames() {
+		if i > 0 {
+			b.WriteString(", ")
+		}
+		fmt.Fprintf(&b, "%q", s)
+	}
+	b.WriteString("]\n\nend Gen\n")
+	return b.String(), nil
+}
+
 func init() {
+	fw.RegisterGen(fw.GenFile{Name: "EnvFsm.lean", Make: genFsm})
 	fw.Register(&fw.Property{
 		ID:         "C01",
 		Generate:   generate,
